@@ -147,7 +147,7 @@ impl Samples {
 
     /// cheap pre-filter so hot loops do not build JSON for every case
     pub fn wants(&self, index: u64) -> bool {
-        index < 3 || (index ^ self.seed).wrapping_mul(0x9e3779b97f4a7c15) >> 44 == 0
+        index < 3 || (index ^ self.seed).wrapping_mul(0x9e3779b97f4a7c15) >> 54 == 0
     }
 
     pub fn offer(&self, index: u64, make: impl FnOnce() -> Value) {
